@@ -25,6 +25,9 @@ NA = {
 
 # property -> (category, technique, level text, level note, design ref)
 CLAIMED = {
+    "C11": ("model_checking", "bounded translation of the kernel's Python source (inspect.getsource at run time) into one SMT formula by a guarded-merge interpreter; z3 over reals and IEEE float32",
+            "Bounded SMT (CBMC style): the current source of _sfs_bnl_core is executed over symbolic matrices (reals: up to 4x3/3x4 quick, 5x3/4x4/6x2 thorough, one and two groups; float32 incl. +-inf: 2x2 quick, 3x2 thorough) with unwinding assertions; z3 shows mask[i] <=> row i is not strictly dominated within its group for every matrix of the shape.",
+            "The numba-compiled code (fastmath) is reached only through replays; argsort is modelled as the stable sorting permutation; the numpy/pandas glue (group encoding, goal signs, prime-factor expansion, dedup) is assumed by contract and only exercised by replays and the float64 cast probe (a known finding).", "4/C11"),
     "C09": ("model_checking", "verdicts of the real comparator vs z3 integer-point search over the whole box (bounded SMT)",
             "Bounded SMT: the real geq_leq_zero/diff_geq_leq_zero are called on ~550 (quick) / ~4500 (thorough) formulas (grammar with ceilings/Min/Max plus the real model's formulas for symbolic tile shapes); for every non-UNKNOWN verdict z3 searches the integer box [1,hi]^k (hi<=12/24) for a point with the forbidden sign; unsat = verdict sound on the whole box.",
             "Derivative verdicts are judged on the expression the comparator derives itself, excluding Min/Max tie points; terms_do_not_cross_zero=True not exercised; three classes of unsound verdicts found on the unchanged tree are recorded in known_findings.json (ceilings dropped, Heaviside all-0/all-1 partition, sympy 1.14 relational evaluation on integer symbols).", "4/C09"),
